@@ -272,6 +272,133 @@ Fixpoint wfb (n : node) : bool :=
   | _ => true
   end.
 
+(* ---------------------------------------------------------------- existing destinations ----- *)
+(* The specification of a copy INTO whatever is at the destination already (Proof/C34_Merge.v
+   proves that the walk computes exactly this, for every source tree and every destination).
+
+   place_file: what one regular file of the source does to whatever is at its path. *)
+Definition place_file (k : cfg) (i pm : N) (c : str) (d : dest) : R :=
+  copy_or_link k [] (File i pm c) (OContent c) d.
+
+(* merge k src d: the destination after the call, by recursion on the SOURCE tree:
+     file    : placed over what is there (place_file),
+     symlink : created, EEXIST if anything is there,
+     dir     : created if nothing is there, kept (with all it holds) if a directory is there, an
+               error if a file is there; then the entries of the source one after the other, each
+               into the entry of the same name. *)
+Fixpoint merge (k : cfg) (n : node) (d : dest) : R :=
+  match n with
+  | File i pm c => place_file k i pm c d
+  | Link t => f_create (Link t) d
+  | Dir es =>
+      let go :=
+        (fix go (l : list (str * node)) (ds : list (str * node)) : R :=
+           match l with
+           | [] => ROk (Dir ds)
+           | (x, c) :: r =>
+               match merge k c (assoc x ds) with
+               | ROk c' => go r (set x c' ds)
+               | e => e
+               end
+           end) in
+      match d with
+      | None => go es []
+      | Some (Dir ds) => go es ds
+      | Some (File _ _ _) => RErr
+      | Some (Link _) => RUnsup
+      end
+  end.
+
+(* what is at a relative path *)
+Fixpoint lookup (p : path) (n : node) : option node :=
+  match p with
+  | [] => Some n
+  | x :: q =>
+      match n with
+      | Dir es => match assoc x es with Some c => lookup q c | None => None end
+      | _ => None
+      end
+  end.
+
+Definition lookup_d (p : path) (d : dest) : option node :=
+  match d with Some n => lookup p n | None => None end.
+
+Definition is_none (d : dest) : bool := match d with None => true | Some _ => false end.
+Definition is_dir (d : dest) : bool := match d with Some (Dir _) => true | _ => false end.
+
+(* can the entry s of the source be placed over d?  (the closed form of "merge succeeds") *)
+Definition leaf_ok (k : cfg) (d : dest) : bool :=
+  if link k then (link_ok k && is_none d) || (fallback k && negb (is_dir d)) else negb (is_dir d).
+
+Fixpoint clash_free (k : cfg) (s : node) (d : dest) : bool :=
+  match s with
+  | File _ _ _ => leaf_ok k d
+  | Link _ => is_none d
+  | Dir es =>
+      let go := fun ds =>
+        (fix go (l : list (str * node)) : bool :=
+           match l with
+           | [] => true
+           | (x, c) :: r => clash_free k c (assoc x ds) && go r
+           end) es in
+      match d with
+      | None => go []
+      | Some (Dir ds) => go ds
+      | Some (File _ _ _) => false
+      | Some (Link _) => false
+      end
+  end.
+
+(* every entry of s is present in d with the same kind, the same contents (files), the same target
+   (symlinks); d may hold more *)
+Fixpoint covers (s d : node) : bool :=
+  match s, d with
+  | File _ _ c, File _ _ c' => str_eqb c c'
+  | Link t, Link t' => str_eqb t t'
+  | Dir es, Dir ds =>
+      (fix go (l : list (str * node)) : bool :=
+         match l with
+         | [] => true
+         | (x, c) :: r => match assoc x ds with Some c' => covers c c' | None => false end && go r
+         end) es
+  | _, _ => false
+  end.
+
+(* the names of regular files below a node, as (inode label, mode bits, contents) *)
+Fixpoint files (n : node) : list (N * N * str) :=
+  match n with
+  | File i pm c => [(i, pm, c)]
+  | Link _ => []
+  | Dir es =>
+      (fix go (l : list (str * node)) : list (N * N * str) :=
+         match l with
+         | [] => []
+         | (_, c) :: r => files c ++ go r
+         end) es
+  end.
+
+Definition files_d (d : dest) : list (N * N * str) :=
+  match d with Some n => files n | None => [] end.
+
+(* Hard links mean: one inode, one mode, one content.  A list of file names is consistent when
+   names with the same label of a pre-existing inode (label <> 0) agree on mode and contents.  A
+   write THROUGH a destination name into an inode it shares with the source would give that label
+   two different contents in the world after the call. *)
+Definition consistent (l : list (N * N * str)) : Prop :=
+  forall i p c p' c', i <> 0%N -> In (i, p, c) l -> In (i, p', c') l -> p = p' /\ c = c'.
+
+Fixpoint has_link (n : node) : bool :=
+  match n with
+  | File _ _ _ => false
+  | Link _ => true
+  | Dir es =>
+      (fix go (l : list (str * node)) : bool :=
+         match l with
+         | [] => false
+         | (_, c) :: r => has_link c || go r
+         end) es
+  end.
+
 (* ---------------------------------------------------------------- correspondence cases ------ *)
 Fixpoint node_eqb (a b : node) : bool :=
   match a, b with
